@@ -199,8 +199,8 @@ class C20(Base):
         if out != exp:
             return "output %s != reference %s" % (d["ok"], hx(exp))
         mv, nv = d.get("m", "na"), d.get("n", "na")
-        sv, rv, lv = d.get("s", "na"), d.get("r", "na"), d.get("l", "na")
-        for f in (mv, nv, sv, rv, lv):
+        sv, rv, lv, qv = d.get("s", "na"), d.get("r", "na"), d.get("l", "na"), d.get("q", "na")
+        for f in (mv, nv, sv, rv, lv, qv):
             if f.startswith("WRITE-DIFFERS"):
                 return "write_pattern and format_pattern disagree under set_transform: " + f[:80]
         if mv != "na" and mv != d["ok"]:
@@ -210,6 +210,8 @@ class C20(Base):
         if sv != "na" and (sv.startswith("err") or unhx(sv) != out.encode("utf-8") * 3):
             return ("through set_transform, text before / inside the default variant of / after a select on a missing "
                     "argument: %s != direct x 3" % sv)
+        if qv != "na" and (qv.startswith("err") or unhx(qv) != s.encode("utf-8")):
+            return "through set_transform, a pattern that is one string-literal placeable was changed: %s (a literal is not text)" % qv
         if lv != "na":
             # a text-only two-line pattern is two text elements, `<input>\n` and `<input>`, each transformed on its own
             if kind == "plain":
